@@ -290,6 +290,25 @@ def build(rng, nav_allowed=True):
             state["t"] += bar
         return (start, state["t"])
 
+    def add_volta():
+        body = add_measures(rng.randint(1, 2))
+        scheme = rng.choice([["1", "2"], ["1", "2"], ["1,2", "3"], ["1", "2", "3"], ["1", "2,3"]])
+        ends = []
+        for nums in scheme:
+            e = add_measures(1)
+            part.add(S.Ending(nums), e[0], e[1])
+            ends.append((nums, e))
+        # a backward repeat sign sits at the end of every ending but the last
+        for _n, e_ in ends[:-1]:
+            part.add(S.Repeat(), body[0], e_[1])
+        total = sum(len(n.split(",")) for n, _ in ends)
+        mx = []
+        for k in range(1, total + 1):
+            e = next(e for n, e in ends if str(k) in n.split(","))
+            mx += [body, e]
+        return mx, [body, ends[-1][1]], "V(" + "|".join(scheme) + ")"
+
+    nested = False
     n_blocks = rng.randint(1, 4)
     blocks = []
     desc = []
@@ -315,35 +334,42 @@ def build(rng, nav_allowed=True):
             n_constructs += 1
             desc.append("R")
         elif kind == "volta":
-            body = add_measures(rng.randint(1, 2))
-            scheme = rng.choice([["1", "2"], ["1", "2"], ["1,2", "3"], ["1", "2", "3"], ["1", "2,3"]])
-            ends = []
-            for nums in scheme:
-                e = add_measures(1)
-                part.add(S.Ending(nums), e[0], e[1])
-                ends.append((nums, e))
-            # a backward repeat sign sits at the end of every ending but the last
-            for _n, e_ in ends[:-1]:
-                part.add(S.Repeat(), body[0], e_[1])
-            total = sum(len(n.split(",")) for n, _ in ends)
-            for k in range(1, total + 1):
-                e = next(e for n, e in ends if str(k) in n.split(","))
-                exp_max += [body, e]
-            exp_min += [body, ends[-1][1]]
+            mx, mn, d_ = add_volta()
+            exp_max += mx
+            exp_min += mn
             has_volta = True
             n_constructs += 1
-            if len(scheme) > 2 or "," in "".join(scheme):
-                pass
-            desc.append("V(" + "|".join(scheme) + ")")
+            desc.append(d_)
         else:
-            a = add_measures(1)
-            inner = add_measures(1)
-            part.add(S.Repeat(), inner[0], inner[1])
-            b = add_measures(1)
-            part.add(S.Repeat(), a[0], b[1])
-            exact = False
+            # an outer repeat around: [plain] inner (simple repeat | volta group) [plain]
+            o_start = state["t"]
+            mx, mn = [], []
+            # (a repeat sign can close or open only one repeat: the outer repeat has its own measures on both sides)
+            if True:
+                a = add_measures(1)
+                mx.append(a)
+                mn.append(a)
+            if rng.random() < 0.5:
+                inner = add_measures(1)
+                part.add(S.Repeat(), inner[0], inner[1])
+                mx += [inner, inner]
+                mn += [inner]
+                d_ = "R"
+            else:
+                imx, imn, d_ = add_volta()
+                mx += imx
+                mn += imn
+                has_volta = True
+            if True:
+                b = add_measures(1)
+                mx.append(b)
+                mn.append(b)
+            part.add(S.Repeat(), o_start, state["t"])
+            exp_max += mx + mx
+            exp_min += mn
+            nested = True
             n_constructs += 2
-            desc.append("N")
+            desc.append("N[" + d_ + "]")
     nav = None
     if nav_allowed and rng.random() < 0.3:
         nav = rng.choice(["dacapo-fine", "dalsegno-coda", "dacapo"])
@@ -390,8 +416,8 @@ def build(rng, nav_allowed=True):
             est *= 2
         elif d_.startswith("V("):
             est *= 1 + sum(len(x.split(",")) for x in d_[2:-1].split("|"))
-        elif d_ == "N":
-            est *= 6
+        elif d_.startswith("N["):
+            est *= 40
     if nav:
         est = est * est
     meta = {"variants_estimate": est, "structure": "".join(desc) + f"/q{q}", "exp_max": exp_max if exact else None, "exp_min": exp_min if exact else None,
